@@ -151,6 +151,8 @@ type world struct {
 	conc    bool   // other goroutines are using bc: RegionsInfo-only getters are called under bc.RLock
 	held    []held // objects handed out earlier (replaced or removed since): must never change
 	heldN   int
+	// noRefresh: regions are being loaded the way a start-up does (no store-record refresh)
+	noRefresh bool
 }
 
 func newWorld() *world {
